@@ -22,6 +22,16 @@ def tb(v, n, order='big'):
     return App('tb', v, n, order)
 
 
+def norm_bytes(v):
+    """a concatenation of fixed-width fields, however it was spelled (a + b, b''.join(...)), is one `bytes` term"""
+    if isinstance(v, App) and v.op == 'cat' and all(isinstance(p, App) and p.op in ('tb', 'bytes') for p in v.args):
+        parts = []
+        for p in v.args:
+            parts.extend(p.args if p.op == 'bytes' else (p,))
+        return App('bytes', *parts)
+    return v
+
+
 class BlsHooks(Hooks):
     def __init__(self, inf: bool):
         self.inf = inf
@@ -64,7 +74,7 @@ class BlsHooks(Hooks):
                 return src.args[0]
             return App('from_bytes', src, order)
         if isinstance(callee, ClassRef) and callee.qual.startswith(B):
-            return Obj(callee.qual, {'value': args[0] if args else kwargs.get('value')})
+            return Obj(callee.qual, {'value': norm_bytes(args[0] if args else kwargs.get('value'))})
         if isinstance(callee, FuncRef) and callee.fi is not None and callee.fi.name == 'from_value' and callee.fi.cls is not None \
                 and callee.fi.cls.name.startswith('BLS12_381_G'):
             it.event('from_value', args[0])
@@ -88,6 +98,7 @@ class BlsHooks(Hooks):
         return NotImplemented
 
     def subscript(self, it, obj, idx, node):
+        obj = norm_bytes(obj)
         if isinstance(obj, App) and obj.op == 'bytes' and isinstance(idx, slice):
             parts = obj.args
             pos = 0
